@@ -105,7 +105,9 @@ def parseTransitions (time_size : Nat) (version : Version) : List (List Nat × N
     parseTransitions time_size version rest >>= fun ts => .ok (⟨t, ty⟩ :: ts)
 
 /-- position of the first NUL -/
-def nulPos (l : List Nat) : Option Nat := l.findIdx? (fun c => c == 0)
+def nulPos : List Nat → Option Nat
+  | [] => none
+  | c :: t => if c = 0 then some 0 else (nulPos t).map (· + 1)
 
 /-- body of the local-time-type loop of `parse` -/
 def parseType (char_count : Nat) (names : List Nat) (arr : List Nat) : P Ltt :=
